@@ -6,6 +6,7 @@ import Driver.Text
 import Aldrin.Model.Msg
 import Aldrin.Model.Packetizer
 import Driver.BrokerCmd
+import Driver.TypeIdCmd
 
 namespace Aldrin.Driver
 open Aldrin
@@ -174,9 +175,11 @@ def step (ds : DState) (line : String) : DState × String :=
       | some out => (ds, out)
       | none => match ioCmd cmd args with
         | some out => (ds, out)
-        | none => match brokerCmd ds.broker cmd args with
-          | some (b, out) => ({ ds with broker := b }, out)
-          | none => (ds, "bad-op")
+        | none => match typeIdCmd cmd args with
+          | some out => (ds, out)
+          | none => match brokerCmd ds.broker cmd args with
+            | some (b, out) => ({ ds with broker := b }, out)
+            | none => (ds, "bad-op")
 
 partial def loop (h : IO.FS.Stream) (out : IO.FS.Stream) (ds : DState) : IO Unit := do
   let line ← h.getLine
